@@ -15,6 +15,9 @@ import (
 )
 
 func (ctrler *EVMCtrler) Query(req abcitypes.RequestQuery) ([]byte, xerrors.XError) {
+	if len(req.Data) < types.AddrSize*2 {
+		return nil, xerrors.ErrInvalidQueryParams.Wrapf("the data of vm_call should be from(%d bytes) + to(%d bytes) + calldata", types.AddrSize, types.AddrSize)
+	}
 	from := req.Data[:types.AddrSize]
 	to := req.Data[types.AddrSize : types.AddrSize*2]
 	data := req.Data[types.AddrSize*2:]
